@@ -28,6 +28,20 @@ CLAIMED = {
          'TLC model checking (C18_Any) + trace validation incl. Trace helper against HtmlEscape(dump)'),
  'C19': ('facade actions are DEFINED by desugaring (FacadePat/FacadeMws); TLC generates every depth-2 program of facade calls (5 prefix chains, 2 resources, per-object middlewares, Handle/Remove/Clean/URL) from two base tables; the harness runs the program through the facade on instance A and the desugared Router calls on instance B; every observation (Routes, dispatch, params, order, Allow, URL) of A must equal B and the specification.', '5 C19',
          'trace validation with mirror instance (facade vs desugared program)'),
+ 'C11': ('Cors.tla states C11_NoMore on the SENT response headers as a function of configuration, request and what the router found; TLC enumerates the product of 321 configuration classes x 3840 request classes (method incl. empty, path incl. *, Origin, Access-Control-Request-Method/Headers with case, spacing and list variants) and checks DecisionConsistent; every request is executed on the real router (quick: 20% of the configurations, thorough: all) and validated.', '5 C11 / 6.2',
+         'exhaustive configuration x request product generated by TLC, response headers validated against Cors.tla (C11_NoMore)'),
+ 'C12': ('Cors.tla C12_Exact: exact Allow-Origin / Credentials / Expose-Headers, preflight-only headers (Allow-Methods = route Allow set, Allow-Headers, Max-Age), Vary lower/upper bounds, configuration verdict of NewRouter; same exhaustive product as C11.', '5 C12 / 6.2',
+         'exhaustive configuration x request product generated by TLC, response headers validated against Cors.tla (C12_Exact)'),
+ 'C13': ('Group.tla / Matchers.tla: GServeOutcomes = first router in order whose matcher accepts the ORIGINAL request, served as that router alone would serve the request the matcher produced; And/Or hand on what they received when they reject (NoTrace and FirstWins model-checked). TLC generates all depth-2 histories of Group.Add/New/Remove/Use over 11 matcher expressions x 288 requests (host x path x Accept x method).', '5 C13',
+         'TLC model checking (NoTrace, FirstWins, NamesUnique) + trace validation of TLC-generated group histories'),
+ 'C14': ('Matchers.tla NormHost + resolution of C02 over the registered domain patterns; TLC generates all depth-2 (thorough 3) histories of Hosts.Add/Delete (case variants, absent, parameterised) from three base tables incl. >= 7 literal domains + wildcard domains, probed with ~100 Host strings (case, :port, empty/invalid port, bracketed IPv6).', '5 C14',
+         'trace validation of TLC-generated Hosts histories against Matchers.tla'),
+ 'C15': ('PathVerEval / HeaderVerEval: exhaustive product of 32 ordered version lists x every path up to length 6 (thorough 7) over {/ v 1 x}; header matcher: 18 declarations x 12 Accept strings with the mime.ParseMediaType answer as logged input; PathVerSane model-checked.', '5 C15',
+         'exhaustive product enumerated by TLC, every call validated against Matchers.tla'),
+ 'C16': ('Group.tla FaultOf/Guard: for every reply the first fault site in execution order (each middleware layer outermost first, then the handler of each kind) and whether a recovery function (router-own / inherited / group) guards it; TLC generates group histories x requests x fault site x panic value (error, string, runtime error) through Group.ServeHTTP and Router.ServeHTTP; escaped value, recovery invocations (exactly once, original value class) and later normal requests validated.', '5 C16',
+         'trace validation of TLC-generated fault plans against Group.tla (FaultOf / Guard)'),
+ 'C20': ('Params.tla: context as a map with Set/Delete/Reset/recycle and accessors as relations to logged strconv answers; TLC generates every op sequence to depth 2 (+ depth 3 sampled) over 3 keys x 16 edge-case values, all accessors recorded after every op; MapLaws model-checked.', '5 C20',
+         'TLC-generated op sequences, accessor observations validated against Params.tla'),
  'C17': ('HandleVerdicts/DoHandle: a rejected Handle leaves the router value unchanged (C17_Atomic model-checked); on the code, after every rejected Handle of pool X (valid/duplicate/reserved/unknown methods in every position, malformed and name-variant patterns) the full battery must equal the battery taken before the call and the unchanged specification table; verdict classes MustReject/MustAccept/either.', '5 C17',
          'TLC model checking (C17_Atomic) + trace validation with before/after battery comparison'),
 }
